@@ -7,7 +7,7 @@ package gen
 // any schema).
 var ExecProfiles = []string{
 	`query Q ( $v : Int = 1 @d , $w : [ [ In ! ] ] ! = [ [ { a : 1 } ] ] ) @d ( x : $v ) { al : f ( a : 1 , b : 1.5 , c : "s" , d : """b""" , e : true , g : null , h : EN , i : [ 1 , $v ] , j : { k : $w , l : { m : [ ] } } ) @d @e ( y : 2 ) { g ... F @d ... on T @d { h } ... @d { i } ... { j } } k }`,
-	`mutation M { m ( in : { a : "x" } ) { id } } subscription S { s } fragment F on T @d { f ... G } fragment G ( $fv : Int = 2 ) on U { g } { anon }`,
+	`mutation M { m ( in : { a : "x" } ) { id } } subscription S { s } fragment F on T @d ( x : 1 , y : [ { k : 2 } ] ) { f ... G @d ( z : 3 ) } fragment G ( $fv : Int = 2 ) on U { g } { anon }`,
 	`query Q ( $a : Int = [ { k : EN } ] @d ( x : [ { k : EN } ] ) , $c : [ Int ! ] ! ) @e ( y : $a ) { f ( z : { k : [ $a ] } ) @e ( y : $a ) ... F @e ( y : $a ) ... on T @e ( y : $a ) { g } on : on ( on : on ) true null } fragment F ( $b : Int @d ( x : 2 ) ) on T @e ( y : $b ) { h } subscription fragment { query }`,
 	`{ big ( f : 1e400 , g : -1.5E+309 , i : 123456789012345678901234567890 , z : -0 , z2 : 0.0e0 , e : [ 1e999 , { k : 2E-999 } ] ) }`,
 	`{ a ( x : """
